@@ -78,6 +78,12 @@ fn check_bar(bar: &str, chars: &[char], cwidth: usize, n_cols: usize, len: Optio
     if p.filled < lo || p.filled > hi {
         return Err(Fail::new("filled", format!("bar {bar:?}: {} filled cells, expected floor({fraction} * {cells}) = {lo}..={hi} (pos {pos}, len {len:?})", p.filled)));
     }
+    if let Some(l) = len.filter(|l| *l <= 1 << 24) {
+        let want = if l == 0 || pos >= l { 1.0 } else if pos == 0 { 0.0 } else { fraction };
+        if fraction != want || (pos > 0 && pos < l && !(fraction > 0.0 && fraction < 1.0)) {
+            return Err(Fail::new("fraction_exact", format!("fraction() = {fraction} for pos {pos}, len {l}: must be 0 at 0, 1 at pos >= len and strictly between otherwise")));
+        }
+    }
     let small = len.map_or(true, |l| l <= 1 << 20);
     let full = match len {
         Some(l) => pos >= l,
@@ -234,6 +240,9 @@ fn chars_strategy() -> BoxedStrategy<String> {
 fn len_pos_strategy() -> BoxedStrategy<(Option<u64>, u64)> {
     prop_oneof![
         4 => (0u64..200).prop_flat_map(|l| (Just(Some(l)), 0..=l + 2)),
+        3 => (0u32..25).prop_flat_map(|k| 1u64..=(1u64 << k)).prop_flat_map(|l| {
+            (Just(Some(l)), prop_oneof![Just(l), Just(l + 1), Just(l - 1), 0..=l, Just(l / 3), Just(u64::MAX)])
+        }),
         3 => (0u32..64).prop_flat_map(|k| {
             let l = 1u64 << k;
             (Just(Some(l)), prop_oneof![0..=l, Just(l.saturating_sub(1)), Just(l + 1), Just(l / 2), Just(1u64)])
